@@ -237,7 +237,16 @@ func cmdCheck(args []string) int {
 	cfg0 := SolverCfg{TimeoutS: 10, WorkDir: filepath.Join(os.TempDir(), fmt.Sprintf("gvc-foreign-%d", os.Getpid())), Seed: seed, Parallel: 12}
 	defer os.RemoveAll(cfg0.WorkDir)
 	var unmasked []string
+	// A function serving this property is verified against the contracts of its callees. The postconditions it
+	// assumes there are part of this property's proof whatever property they are labelled with: the callees are
+	// verified in this run too (transitively) and those postconditions count as obligations of this property.
+	reliedPosts := map[string]map[string]bool{}
+	queued := map[string]bool{}
 	for _, k := range keys {
+		queued[k] = true
+	}
+	for qi := 0; qi < len(keys); qi++ {
+		k := keys[qi]
 		fc := prog.contracts.Funcs[k]
 		fn := prog.findFunc(fc.PkgPath, fc.Key)
 		if fn == nil {
@@ -302,6 +311,23 @@ func cmdCheck(args []string) int {
 		for _, e := range r.Errors {
 			toolErrs = append(toolErrs, r.Name+": "+e)
 		}
+		var rk []string
+		for ck := range r.Relied {
+			rk = append(rk, ck)
+		}
+		sort.Strings(rk)
+		for _, ck := range rk {
+			if reliedPosts[ck] == nil {
+				reliedPosts[ck] = map[string]bool{}
+			}
+			for l := range r.Relied[ck] {
+				reliedPosts[ck][l] = true
+			}
+			if cfc, ok := prog.contracts.Funcs[ck]; ok && !cfc.Extern && !queued[ck] && o.only == "" {
+				queued[ck] = true
+				keys = append(keys, ck)
+			}
+		}
 	}
 	for _, u := range unmasked {
 		fmt.Println("NOTE: obligation of another property", u)
@@ -312,6 +338,9 @@ func cmdCheck(args []string) int {
 	for _, r := range results {
 		for _, ob := range r.Obls {
 			if hasProp(ob.Props, o.id) {
+				obs = append(obs, ob)
+			} else if ob.Kind == "post" && r.Contract != nil && reliedPosts[r.Contract.mapKey()][ob.Label] {
+				ob.Props = append(append([]string{}, ob.Props...), o.id)
 				obs = append(obs, ob)
 			}
 		}
